@@ -1,6 +1,7 @@
 //! Correspondence harness: runs the real calloop (built from /repo with --cfg calloop_verif)
 //! on the same case files the extracted Coq model is run on, printing canonical result lines.
 
+mod m_async;
 mod m_cchan;
 mod m_cexec;
 mod m_cping;
@@ -22,6 +23,7 @@ fn main() {
     match args.get(1).map(|s| s.as_str()) {
         Some("token") => m_token::run(),
         Some("cping") => m_cping::run(),
+        Some("async") => m_async::run(),
         Some("cexec") => m_cexec::run(),
         Some("cexec13") => m_cexec::run13(),
         Some("streams") => m_cexec::run_streams(),
